@@ -221,3 +221,23 @@ def canonicalise(scenario, trace):
             out.append(line)
             i += 1
     return out
+
+
+def load_corpus(prop):
+    """committed minimised past failures (run before anything else); scenario names are made unique"""
+    scenarios = []
+    d = os.path.join(VERIF, "corpus", prop)
+    if os.path.isdir(d):
+        for f in sorted(os.listdir(d)):
+            lines = [l.rstrip("\n") for l in open(os.path.join(d, f)) if l.strip() and not l.startswith("#")]
+            cur = None
+            for l in lines:
+                if l.startswith("scenario "):
+                    cur = [f"scenario corpus-{os.path.splitext(f)[0]}-{len(scenarios)}"]
+                elif l == "endscenario":
+                    if cur is not None:
+                        cur.append(l); scenarios.append(cur)
+                    cur = None
+                elif cur is not None:
+                    cur.append(l)
+    return scenarios
